@@ -1919,7 +1919,9 @@ class AutoImporter:
                 # IPython 6.0+ uses jedi completion by default, which bypasses
                 # the global and attr matchers. For now we manually reenable
                 # them. A TODO would be to hook the Jedi completer itself.
-                if completer.python_matches not in completer.matchers:
+                python_matches = getattr(completer, "python_matches", None)
+                if (python_matches is not None
+                    and python_matches not in completer.matchers):
                     @self._advise(type(completer).matchers)
                     def matchers_with_python_matches(completer):
                         return __original__.fget(completer)+[completer.python_matches]
